@@ -328,6 +328,56 @@ def check_weak(res, spec, text, msg, fam):
     return True
 
 
+CONTEXTS = [('scalar-alias-before', S('int', '1'), True), ('collection-alias-before', Q([S('int', '1')]), True),
+            ('scalar-alias-after', S('str', 'a'), False), ('collection-alias-after', M([(S('str', 'k'), S('int', '1'))]), False)]
+
+
+def context_cases(res, case, spec, fam, tree0, op, site, tree1):
+    """the same corrupted document as attribute `v` of an enclosing object that also has two untyped attributes, one an
+    alias of the other (an anchored scalar or collection, before or after `v`): what is said about the corrupted place
+    must not depend on an alias elsewhere in the document"""
+    if not hasattr(case, '_ctx'):
+        ctx = {'name': 'Ctx', 'params': [('c', 'any'), ('d', 'any'), ('v', spec['root'])]}
+        ctxb = {'name': 'Ctx', 'params': [('v', spec['root']), ('c', 'any', None), ('d', 'any', None)]}
+        case._ctx = (loadcase.Case(dict(spec, classes=list(spec['classes']) + [ctx], root=('cls', 'Ctx'))),
+                     loadcase.Case(dict(spec, classes=list(spec['classes']) + [ctxb], root=('cls', 'Ctx'))))
+    for cname, shared, before in CONTEXTS:
+        c2 = case._ctx[0 if before else 1]
+        pairs0 = [(S('str', 'c'), shared), (S('str', 'd'), shared)]
+        w0 = M(pairs0 + [(S('str', 'v'), tree0)]) if before else M([(S('str', 'v'), tree0)] + pairs0)
+        w1 = M(pairs0 + [(S('str', 'v'), tree1)]) if before else M([(S('str', 'v'), tree1)] + pairs0)
+        vi = 2 if before else 0
+        root = models.to_node(w1)
+        ci, di = (0, 1) if before else (1, 2)
+        root.value[di] = (root.value[di][0], root.value[ci][1])
+        try:
+            text = c2.R.serialize(root)
+            root1 = c2.R.compose(text)
+        except Exception:     # noqa
+            res.hist['context:unrenderable'] += 1
+            continue
+        if root1.value[ci][1] is not root1.value[di][1] or models.view(root1) != models.view(models.to_node(w1)):
+            res.hist['context:render-mismatch'] += 1
+            continue
+        res.transitions += 1
+        res.traces += 1
+        o = c2.impl(text)
+        if o[0] != 'rej':
+            res.hist['context:' + o[0]] += 1
+            continue
+        lines, _ = allowed_lines(op, ((vi, 1),) + tuple(site), w0, w1, root1)
+        lines = set(lines) | {root1.value[vi][0].start_mark.line + 1}
+        got = {ln for ln, _ in cited(o[1])}
+        if not (got & lines):
+            res.violation('C17:strong:context:%s:%s' % (cname, op),
+                          '%s at %s, the document being attribute v of an object whose attributes c and d are an anchor and its alias (%s): '
+                          '%r: message cites line(s) %s, expected one of %s: %s' % (
+                              op, list(site), cname, text, sorted(got), sorted(lines), o[1].replace('\n', ' / ')[:300]),
+                          loadcase.payload(c2.spec, text, claim='context', lines=sorted(lines)))
+        else:
+            res.hist['context:line-ok:' + cname] += 1
+
+
 def strong_case(res, case, spec, fam, tree0, op, site, tree1, class_paths):
     text, back = case.R.checked(tree1)
     if text is None:
@@ -357,6 +407,7 @@ def strong_case(res, case, spec, fam, tree0, op, site, tree1, class_paths):
                           op, site, text, sorted(got), sorted(lines), msg.replace('\n', ' / ')[:300]), pl)
         return
     res.hist['strong:line-ok:' + op] += 1
+    context_cases(res, case, spec, fam, tree0, op, site, tree1)
     if names is not None:
         mp = site[:-1] if op == 'misspell' else site
         if mp in class_paths:
@@ -455,6 +506,13 @@ def replay(payload):
     res = core.Result()
     if not check_weak(res, spec, text, o[1], 'replay'):
         return True, res.violations[0]['what']
+    if payload.get('claim') == 'context':
+        case = loadcase.Case(payload['spec'])
+        o = case.impl(payload['text'])
+        if o[0] != 'rej':
+            return False, 'outcome ' + o[0]
+        got = {ln for ln, _ in cited(o[1])}
+        return not (got & set(payload['lines'])), 'message cites %s, expected one of %s' % (sorted(got), payload['lines'])
     if payload.get('claim') == 'alias':
         op = case.impl(payload['plain'])
         comp = case.R.compose(payload['plain'])
